@@ -1,8 +1,829 @@
-// C05 harness part (stub until built)
-use crate::verif::vx::report::Report;
+// C05 (end-to-end part): a malformed UPDATE never installs a route; the session
+// resets only if it must.
+//
+// Technique: bounded-exhaustive replay.  The corpus of the packet-level check
+// (/verif/hx/src/c05.rs: hand-built valid UPDATEs x corruption menu, included
+// below as module `pk`, together with its INDEPENDENT RFC 4271 / RFC 7606
+// reference receiver and its oracle `judge`) is written, byte for byte, to a
+// LIVE passive session: the real accept_connection + PeerSession::run over
+// loopback TCP, the harness plays the remote speaker (ev_common.rs).
+//
+// Per case (own daemon instance, neighbour configured for the role, IPv4+IPv6
+// unicast, 2- or 4-octet AS by omitting / advertising the capability):
+//   1. establish;
+//   2. PRE-INSTALL, with a valid UPDATE carrying marker attributes, every prefix
+//      the case UPDATE announces or withdraws (as located by the reference) plus
+//      one canary prefix per family; barrier; all of them must be in Adj-RIB-In;
+//   3. write the case's bytes; barrier (a KEEPALIVE counted by the session's
+//      receive counter = everything before it has been processed);
+//   4. observe: session still up?  NOTIFICATION on the wire?  session task
+//      panicked?  Adj-RIB-In of the peer (both families) through
+//      TableManager::collect_paths(AdjIn).
+// The RIB observation is turned into the packet-level observation vocabulary
+//   route with other than the marker attributes  -> "Reach"  (installed by this UPDATE)
+//   pre-installed prefix that is gone             -> "Unreach" (withdrawn)
+//   pre-installed prefix still with the marker    -> nothing happened to it
+// and handed to `pk::judge` with the reference's expectation; its clauses map to
+//   faulty-attr-believed / not-treated-as-withdraw / missing-mandatory-accepted
+//                                        -> C05/e2e/faulty-route-installed/<attr>:<class>
+//   not-treated-as-withdraw(silently-ignored) -> C05/e2e/previous-route-not-withdrawn/<attr>:<class>
+//   withdrawal-lost                      -> C05/e2e/withdrawal-not-applied/<legacy|mp>:<attr>:<class>
+//   needless-reset                       -> C05/e2e/needless-reset/<attr>:<class>
+//   ibgp-only-attr-believed              -> C05/e2e/ibgp-only-attr-installed/<role>:<attr>
+// plus the end-to-end-only clauses
+//   C05/e2e/reset-without-notification/<..>  session ended (allowed) but no NOTIFICATION was sent
+//   C05/e2e/routes-kept-after-reset/<..>     session reset but routes of the peer survive
+//   C05/e2e/panic/<file:line>                the session task panicked
+// Timeouts are MACHINERY errors, never verdicts.
 
-pub(crate) fn run(_replay: Option<&str>) -> Report {
+use super::super::*;
+use super::common::*;
+use crate::verif::vx::enumr;
+use crate::verif::vx::report::{hex, unhex, Report, Violation};
+use std::collections::{BTreeMap, BTreeSet};
+use std::net::{IpAddr, Ipv4Addr, Ipv6Addr};
+
+#[allow(dead_code, unused_imports, unused_variables, unreachable_pub, clippy::all)]
+mod vx {
+    pub(crate) use crate::verif::vx::*;
+}
+#[allow(dead_code, unused_imports, unused_variables, unreachable_pub, clippy::all)]
+mod mkmsg {
+    include!(concat!(env!("OSRG_RUSTYBGP_VERIF_DIR"), "/hx/src/mkmsg.rs"));
+}
+#[allow(dead_code, unused_imports, unused_variables, unreachable_pub, clippy::all)]
+mod wire {
+    include!(concat!(env!("OSRG_RUSTYBGP_VERIF_DIR"), "/hx/src/wire.rs"));
+}
+/// the packet-level C05 module: corpus, reference receiver, oracle
+#[allow(dead_code, unused_imports, unused_variables, unreachable_pub, clippy::all)]
+mod pk {
+    include!(concat!(env!("OSRG_RUSTYBGP_VERIF_DIR"), "/hx/src/c05.rs"));
+}
+use pk::{Expect, Obs, ObsMsg, Pfx, Role};
+
+const PEER_IP: IpAddr = IpAddr::V4(Ipv4Addr::new(127, 0, 1, 1));
+const LOCAL_AS: u32 = 65000; // ev_common::make_global
+const PEER_AS: u32 = 65001; // first AS of the corpus' AS_PATH
+const CONFED_ID: u32 = 64900;
+const PEER_ID: u32 = 0x0a0a0a01;
+/// second AS of the marker AS_PATH of pre-installed routes (fits 2 octets)
+const MARKER_AS: u32 = 64512;
+const MARKER_MED: u32 = 4242;
+
+fn canaries() -> Vec<Pfx> {
+    let mut v6 = [0u8; 16];
+    v6[..6].copy_from_slice(&[0x20, 0x01, 0x0d, 0xb8, 0xff, 0xff]);
+    let mut v4 = [0u8; 16];
+    v4[..3].copy_from_slice(&[203, 0, 113]);
+    vec![Pfx { afi: 1, safi: 1, len: 24, addr: v4 }, Pfx { afi: 2, safi: 1, len: 48, addr: v6 }]
+}
+
+fn nlri_of(p: &Pfx) -> packet::Nlri {
+    if p.afi == 1 {
+        packet::Nlri::V4(packet::bgp::Ipv4Net { addr: Ipv4Addr::new(p.addr[0], p.addr[1], p.addr[2], p.addr[3]), mask: p.len })
+    } else {
+        packet::Nlri::V6(packet::bgp::Ipv6Net { addr: Ipv6Addr::from(p.addr), mask: p.len })
+    }
+}
+
+fn family_of(p: &Pfx) -> Family {
+    if p.afi == 1 { Family::IPV4 } else { Family::IPV6 }
+}
+
+fn marker_as_path() -> Vec<u8> {
+    let mut b = vec![2u8, 2];
+    b.extend_from_slice(&PEER_AS.to_be_bytes());
+    b.extend_from_slice(&MARKER_AS.to_be_bytes());
+    b
+}
+
+fn marker_attrs() -> Vec<packet::Attribute> {
+    vec![
+        packet::Attribute::new_with_value(packet::Attribute::ORIGIN, 2).unwrap(),
+        packet::Attribute::new_with_bin(packet::Attribute::AS_PATH, marker_as_path()).unwrap(),
+        packet::Attribute::new_with_value(packet::Attribute::MULTI_EXIT_DESC, MARKER_MED).unwrap(),
+    ]
+}
+
+fn is_marker(attr: &[packet::Attribute]) -> bool {
+    let m = marker_as_path();
+    attr.iter().any(|a| a.code() == packet::Attribute::AS_PATH && a.binary() == Some(&m))
+}
+
+/// One route of the peer's Adj-RIB-In.
+struct Route {
+    pfx: Pfx,
+    marker: bool,
+    /// (code, value) as the packet-level oracle represents attributes
+    attrs: Vec<(u8, pk::Repr)>,
+}
+
+/// Adj-RIB-In of the peer, both families, as (prefix, attributes) in the
+/// vocabulary of the packet-level module (conversion through its public
+/// `observe_messages`).
+fn adj_in(tables: &TableHandle) -> Vec<Route> {
+    let mut out = Vec::new();
+    for f in [Family::IPV4, Family::IPV6] {
+        for d in tables.collect_paths(table::TableQuery::AdjIn(PEER_IP), f, vec![], true) {
+            for p in &d.paths {
+                let msg = bgp::Message::Update(bgp::Update::Reach { family: f, entries: vec![packet::PathNlri { path_id: 0, nlri: d.net.clone() }], nexthop: None, attr: p.attr.clone() });
+                for o in pk::observe_messages(&[msg]) {
+                    if let ObsMsg::Reach { pfx, attrs, .. } = o {
+                        for x in pfx {
+                            out.push(Route { pfx: x, marker: is_marker(&p.attr), attrs: attrs.clone() });
+                        }
+                    }
+                }
+            }
+        }
+    }
+    out.sort_by(|a, b| a.pfx.cmp(&b.pfx));
+    out
+}
+
+struct Outcome {
+    /// the session was still Established after the case UPDATE (barrier counted)
+    up: bool,
+    /// NOTIFICATION read from the wire
+    notif: Option<(u8, u8, String)>,
+    /// the daemon's transmit counter counted a NOTIFICATION (it is incremented after a successful write)
+    notif_counted: bool,
+    panicked: Option<String>,
+    /// Adj-RIB-In after the barrier (session up) / after the session task ended (reset)
+    routes: Vec<Route>,
+    /// prefixes confirmed installed (with the marker) before the case UPDATE
+    pre: Vec<Pfx>,
+    /// the role accept_connection derived from the configuration
+    daemon_role: String,
+}
+
+fn role_cfg(role: Role) -> (u32, bool, bool) {
+    // (peer AS, rs_client, confederation)
+    match role {
+        Role::Ebgp => (PEER_AS, false, false),
+        Role::RsClient => (PEER_AS, true, false),
+        Role::Ibgp => (LOCAL_AS, false, false),
+        Role::ConfedEbgp => (PEER_AS, false, true),
+    }
+}
+
+/// Err = machinery problem (never a verdict).
+async fn drive(bytes: &[u8], two_byte: bool, role: Role, exp: &Expect) -> Result<Outcome, String> {
+    let d = Daemon::new(1);
+    let (peer_as, rs, confed) = role_cfg(role);
+    let daemon_role = {
+        let mut g = d.global.write().await;
+        if confed {
+            g.confederation = Some(ConfederationConfig { id: CONFED_ID, members: [PEER_AS].into_iter().collect() });
+        }
+        let mut p = default_peer_params(PEER_IP);
+        p.passive = true;
+        p.expected_remote_asn = peer_as;
+        p.rs_client = rs;
+        p.holdtime = 90;
+        p.families = [(Family::IPV4, 0u8), (Family::IPV6, 0u8)].into_iter().collect();
+        g.add_peer(p, None).map_err(|_| "add_peer failed".to_string())?;
+        format!("{:?}", g.peers.get(&PEER_IP).unwrap().peer_role(&g))
+    };
+    let mut caps = vec![packet::Capability::MultiProtocol(Family::IPV4), packet::Capability::MultiProtocol(Family::IPV6)];
+    if !two_byte {
+        caps.push(packet::Capability::FourOctetAsNumber(peer_as));
+    }
+    let Some(mut conn) = connect(&d, PEER_IP, crate::fsm::Role::Passive).await? else {
+        return Err("the daemon refused the connection of the configured neighbour".into());
+    };
+    if !conn.establish(peer_as, PEER_ID, 90, caps).await? {
+        conn.wait_end(true).await;
+        return Err(format!("session set-up failed (role {}, as width {})", role.name(), if two_byte { 2 } else { 4 }));
+    }
+    if conn.codec.two_byte_as != two_byte {
+        return Err(format!("negotiated AS width is not the wanted one (two_byte_as={})", conn.codec.two_byte_as));
+    }
+
+    // ---- pre-install -------------------------------------------------------
+    let mut pre: BTreeSet<Pfx> = canaries().into_iter().collect();
+    for p in exp.announced.iter().chain(exp.withdrawn.iter()) {
+        if p.safi == 1 && (p.afi == 1 || p.afi == 2) {
+            pre.insert(p.clone());
+        }
+    }
+    let attrs = Arc::new(marker_attrs());
+    for (fam, nh) in [(Family::IPV4, bgp::Nexthop::V4(Ipv4Addr::new(127, 0, 1, 1))), (Family::IPV6, bgp::Nexthop::V6("2001:db8::99".parse().unwrap()))] {
+        let entries: Vec<packet::PathNlri> = pre.iter().filter(|p| family_of(p) == fam).map(|p| packet::PathNlri { path_id: 0, nlri: nlri_of(p) }).collect();
+        // keep every pre-install UPDATE far below 4096 bytes
+        for chunk in entries.chunks(100) {
+            let msg = bgp::Message::Update(bgp::Update::Reach { family: fam, entries: chunk.to_vec(), nexthop: Some(nh), attr: attrs.clone() });
+            if !conn.send(&msg).await {
+                return Err("pre-install: could not send".into());
+            }
+        }
+    }
+    if !conn.barrier().await {
+        return Err("pre-install: the session ended while valid UPDATEs were processed".into());
+    }
+    let before = adj_in(&d.tables);
+    for p in &pre {
+        if !before.iter().any(|r| r.pfx == *p && r.marker) {
+            return Err(format!("pre-install: {} is not in the Adj-RIB-In after a valid UPDATE (role {})", p.show(), role.name()));
+        }
+    }
+    if before.len() != pre.len() {
+        return Err(format!("pre-install: Adj-RIB-In holds {} routes, {} were announced", before.len(), pre.len()));
+    }
+
+    // ---- the case ----------------------------------------------------------
+    if !conn.send_bytes(bytes).await {
+        return Err("could not write the case's bytes".into());
+    }
+    let up = conn.barrier().await;
+    if let Some(e) = take_machinery() {
+        return Err(e);
+    }
+    let counter_tx = {
+        let g = d.global.read().await;
+        g.peers.get(&PEER_IP).map(|p| p.counter_tx.clone())
+    };
+    let mut out = Outcome { up, notif: None, notif_counted: false, panicked: None, routes: Vec::new(), pre: pre.into_iter().collect(), daemon_role };
+    if up {
+        out.routes = adj_in(&d.tables);
+        conn.wait_end(true).await;
+    } else {
+        // what did the daemon say before it went away?
+        for _ in 0..10_000 {
+            match conn.read_msg().await {
+                Ok(Some(bgp::ParsedMessage::Notification(n))) => {
+                    out.notif = Some((n.notification_code(), n.notification_subcode(), format!("{n}")));
+                }
+                Ok(Some(_)) => {}
+                Ok(None) => break,
+                Err(e) if e.starts_with("timeout") => return Err(format!("after the case UPDATE: {e}")),
+                // our own KEEPALIVE met a closed socket: the RST may cut the stream short
+                Err(_) => break,
+            }
+        }
+        if let Some(j) = conn.join.take() {
+            match tokio::time::timeout(WAIT, j).await {
+                Err(_) => return Err("session task did not end within the time limit".into()),
+                Ok(Ok(())) => {}
+                Ok(Err(e)) => {
+                    if e.is_panic() {
+                        let payload = e.into_panic();
+                        let msg = crate::verif::vx::report::catch(move || std::panic::resume_unwind(payload)).err().unwrap_or_default();
+                        out.panicked = Some(msg);
+                    } else {
+                        return Err("session task was cancelled".into());
+                    }
+                }
+            }
+        }
+        conn.stream = None;
+        out.notif_counted = counter_tx.is_some_and(|c| c.notification.load(Ordering::Relaxed) > 0);
+        out.routes = adj_in(&d.tables);
+    }
+    if let Some(e) = take_machinery() {
+        return Err(e);
+    }
+    Ok(out)
+}
+
+/// The RIB observation in the packet-level vocabulary.
+fn to_obs(o: &Outcome) -> Obs {
+    if let Some(p) = &o.panicked {
+        return Obs::Panic(p.clone());
+    }
+    if !o.up {
+        let (code, subcode, text) = o.notif.clone().unwrap_or((0, 0, "session ended without a NOTIFICATION on the wire".into()));
+        return Obs::Reset { code, subcode, text };
+    }
+    let mut msgs = Vec::new();
+    for r in o.routes.iter().filter(|r| !r.marker) {
+        msgs.push(ObsMsg::Reach { afi: r.pfx.afi, safi: r.pfx.safi, nexthop: Some("installed".into()), pfx: vec![r.pfx.clone()], attrs: r.attrs.clone() });
+    }
+    for p in &o.pre {
+        if !o.routes.iter().any(|r| r.pfx == *p) {
+            msgs.push(ObsMsg::Unreach { afi: p.afi, safi: p.safi, pfx: vec![p.clone()] });
+        }
+    }
+    Obs::Msgs(msgs)
+}
+
+fn show_outcome(o: &Outcome) -> String {
+    let routes: Vec<String> = o.routes.iter().map(|r| format!("{}{}", r.pfx.show(), if r.marker { "(previous)".to_string() } else { format!("(new, attrs {:?})", r.attrs.iter().map(|a| a.0).collect::<Vec<_>>()) })).collect();
+    format!(
+        "session {}; NOTIFICATION on the wire: {}; counted as sent: {}; Adj-RIB-In: [{}]",
+        if let Some(p) = &o.panicked { format!("task PANICKED ({p})") } else if o.up { "still Established".to_string() } else { "ended".to_string() },
+        o.notif.as_ref().map(|n| format!("{}/{} ({})", n.0, n.1, n.2)).unwrap_or("none".into()),
+        o.notif_counted,
+        routes.join(" ")
+    )
+}
+
+/// "<attr>:<class>" of every fault the reference found, structural reasons as "structural:<kind>".
+fn fault_names(exp: &Expect) -> Vec<String> {
+    let mut v: Vec<String> = exp.hard.iter().chain(exp.disc.iter()).map(|f| f.name()).collect();
+    for c in &exp.missing {
+        v.push(format!("{}:missing", pk_attr_name(*c)));
+    }
+    for d in &exp.dups {
+        v.push(format!("{}:duplicate", pk_attr_name(d.code)));
+    }
+    for s in &exp.structural {
+        v.push(format!("structural:{}", structural_kind(s)));
+    }
+    v.sort();
+    v.dedup();
+    v
+}
+
+fn pk_attr_name(code: u8) -> String {
+    // the packet-level module's names, through its public Fault::name
+    let f = pk::Fault { code, block: false, class: String::new(), why: String::new() };
+    f.name().trim_end_matches(':').to_string()
+}
+
+/// stable kind of a structural reason: the text in front of the first number
+fn structural_kind(s: &str) -> String {
+    let cut = s.find(|c: char| c.is_ascii_digit()).unwrap_or(s.len());
+    let head = s[..cut].trim().trim_end_matches(':').trim();
+    let head = if head.is_empty() { s.trim() } else { head };
+    head.split_whitespace().collect::<Vec<_>>().join("-")
+}
+
+/// (clause, fault, detail) of the findings single corruptions produce: a pair's
+/// finding is attributed to the fault that already shows it on its own.
+type Owners = BTreeSet<(String, String, String)>;
+
+/// Which of several candidate faults names the signature.  Single corruption
+/// (`owners` = None): the fault on the attribute the corruption was aimed at,
+/// else the first (sorted).  Pair: the fault that produces the same finding as a
+/// single corruption; a finding that only the combination shows names all.
+fn pick(faults: &[String], target: &str, clause: &str, detail: &str, owners: Option<&Owners>) -> String {
+    if faults.is_empty() {
+        return "valid-update".into();
+    }
+    if faults.len() == 1 {
+        return faults[0].clone();
+    }
+    match owners {
+        None => {
+            let pre = format!("{target}:");
+            faults.iter().find(|f| f.starts_with(&pre)).unwrap_or(&faults[0]).clone()
+        }
+        Some(o) => match faults.iter().find(|n| o.contains(&(clause.to_string(), (*n).clone(), detail.to_string()))) {
+            Some(n) => n.clone(),
+            None => faults.join("+"),
+        },
+    }
+}
+
+fn target_of(name: &str) -> &str {
+    // name = "<base>;as=<w>;<target>:<corruption id>"
+    name.rsplit(';').next().and_then(|c| c.split(':').next()).unwrap_or("")
+}
+
+fn e2e_signature(f: &pk::Finding, fault: &str) -> String {
+    match f.clause {
+        "faulty-attr-believed" => {
+            if f.detail.is_empty() {
+                format!("C05/e2e/faulty-route-installed/{fault}")
+            } else {
+                format!("C05/e2e/faulty-route-installed/{fault}({})", f.detail)
+            }
+        }
+        "not-treated-as-withdraw" if f.detail == "silently-ignored" => format!("C05/e2e/previous-route-not-withdrawn/{fault}"),
+        "not-treated-as-withdraw" => format!("C05/e2e/faulty-route-installed/{fault}"),
+        "missing-mandatory-accepted" => format!("C05/e2e/faulty-route-installed/{}:missing", f.detail),
+        "withdrawal-lost" => format!("C05/e2e/withdrawal-not-applied/{}:{fault}", f.detail),
+        "needless-reset" => format!("C05/e2e/needless-reset/{fault}"),
+        "ibgp-only-attr-believed" => format!("C05/e2e/ibgp-only-attr-installed/{}", f.detail),
+        "panic" => format!("C05/e2e/panic/{}", f.detail),
+        other => format!("C05/e2e/{other}/{fault}"),
+    }
+}
+
+/// Prefixes (trailing bits cleared) that the frame encodes with NON-ZERO trailing
+/// bits in one of its NLRI fields (Withdrawn Routes, NLRI, MP_REACH_NLRI,
+/// MP_UNREACH_NLRI).  RFC 4271 4.3: "the value of trailing bits is irrelevant".
+/// Only used to name the root cause of a lost withdrawal (signature shape
+/// `nlri:trailing-bits`), never to decide whether there is a violation.
+fn trailing_bit_prefixes(frame: &[u8]) -> BTreeSet<Pfx> {
+    let mut out = BTreeSet::new();
+    fn scan(afi: u16, b: &[u8], out: &mut BTreeSet<Pfx>) {
+        let max = if afi == 1 { 4 } else { 16 };
+        let mut p = 0usize;
+        while p < b.len() {
+            let l = b[p] as usize;
+            let n = l.div_ceil(8);
+            if n > max || p + 1 + n > b.len() {
+                return;
+            }
+            let rem = l % 8;
+            if rem != 0 {
+                let last = b[p + n];
+                let keep = 0xffu8 << (8 - rem);
+                if last & !keep != 0 {
+                    let mut addr = [0u8; 16];
+                    addr[..n].copy_from_slice(&b[p + 1..p + 1 + n]);
+                    addr[n - 1] &= keep;
+                    out.insert(Pfx { afi, safi: 1, len: l as u8, addr });
+                }
+            }
+            p += 1 + n;
+        }
+    }
+    if frame.len() < 23 {
+        return out;
+    }
+    let body = &frame[19..];
+    let wlen = u16::from_be_bytes([body[0], body[1]]) as usize;
+    if 4 + wlen > body.len() {
+        return out;
+    }
+    scan(1, &body[2..2 + wlen], &mut out);
+    let tal = u16::from_be_bytes([body[2 + wlen], body[3 + wlen]]) as usize;
+    if 4 + wlen + tal > body.len() {
+        return out;
+    }
+    scan(1, &body[4 + wlen + tal..], &mut out);
+    let block = &body[4 + wlen..4 + wlen + tal];
+    let mut p = 0usize;
+    while p + 3 <= block.len() {
+        let ext = block[p] & 0x10 != 0;
+        if ext && p + 4 > block.len() {
+            break;
+        }
+        let (hdr, alen) = if ext { (4, u16::from_be_bytes([block[p + 2], block[p + 3]]) as usize) } else { (3, block[p + 2] as usize) };
+        if p + hdr + alen > block.len() {
+            break;
+        }
+        let v = &block[p + hdr..p + hdr + alen];
+        match block[p + 1] {
+            14 if v.len() >= 5 && v[2] == 1 => {
+                let nhl = v[3] as usize;
+                if 5 + nhl <= v.len() {
+                    scan(u16::from_be_bytes([v[0], v[1]]), &v[5 + nhl..], &mut out);
+                }
+            }
+            15 if v.len() >= 3 && v[2] == 1 => scan(u16::from_be_bytes([v[0], v[1]]), &v[3..], &mut out),
+            _ => {}
+        }
+        p += hdr + alen;
+    }
+    out
+}
+
+struct Verdict {
+    sig: String,
+    what: String,
+    /// (clause, fault, detail): what a single corruption "owns" (see `Owners`)
+    key: (String, String, String),
+}
+
+/// The verdicts of one replayed case.
+fn verdicts(name: &str, bytes: &[u8], role: Role, exp: &Expect, o: &Outcome, owners: Option<&Owners>) -> Vec<Verdict> {
+    let target = target_of(name);
+    let obs = to_obs(o);
+    let mut out: Vec<Verdict> = Vec::new();
+    // prefixes of the UPDATE whose previous route is still installed although the session is up
+    let stuck: Vec<&Pfx> = o.pre.iter().filter(|p| (exp.announced.contains(p) || exp.withdrawn.contains(p)) && o.routes.iter().any(|r| r.pfx == **p && r.marker)).collect();
+    let trailing = trailing_bit_prefixes(bytes);
+    let stuck_by_trailing_bits = o.up && !stuck.is_empty() && stuck.iter().all(|p| trailing.contains(*p));
+    for mut f in pk::judge(exp, role, &obs) {
+        if stuck_by_trailing_bits && (f.clause == "withdrawal-lost" || (f.clause == "not-treated-as-withdraw" && f.detail == "silently-ignored")) {
+            // distinct root cause: the prefix is on the wire with non-zero trailing bits and the
+            // receiver takes it for a different prefix than the one installed
+            f.faults = vec!["nlri:trailing-bits".into()];
+            f.what = format!("{} [every prefix left behind is encoded with non-zero trailing bits, which RFC 4271 4.3 calls irrelevant: {}]", f.what, stuck.iter().map(|p| p.show()).collect::<Vec<_>>().join(" "));
+        }
+        let fault = pick(&f.faults, target, f.clause, &f.detail, owners);
+        out.push(Verdict { sig: e2e_signature(&f, &fault), what: format!("{} -- end to end: {}", f.what, show_outcome(o)), key: (f.clause.to_string(), fault, f.detail.clone()) });
+    }
+    if !o.up && o.panicked.is_none() {
+        let names = fault_names(exp);
+        // a reset, allowed or not: it must be announced by a NOTIFICATION and take the peer's routes along
+        if o.notif.is_none() && !o.notif_counted {
+            let fault = pick(&names, target, "reset-without-notification", "", owners);
+            out.push(Verdict {
+                sig: format!("C05/e2e/reset-without-notification/{fault}"),
+                what: format!("the session ended after the UPDATE but no NOTIFICATION was sent -- {}", show_outcome(o)),
+                key: ("reset-without-notification".into(), fault, String::new()),
+            });
+        }
+        if !o.routes.is_empty() {
+            let fault = pick(&names, target, "routes-kept-after-reset", "", owners);
+            out.push(Verdict {
+                sig: format!("C05/e2e/routes-kept-after-reset/{fault}"),
+                what: format!("the session was reset (no graceful restart negotiated) but routes of the peer are still installed -- {}", show_outcome(o)),
+                key: ("routes-kept-after-reset".into(), fault, String::new()),
+            });
+        }
+    }
+    out.sort_by(|a, b| a.sig.cmp(&b.sig));
+    out.dedup_by(|a, b| a.sig == b.sig);
+    out
+}
+
+fn case_string(name: &str, role: Role, two_byte: bool, bytes: &[u8]) -> String {
+    format!("role={}#as={}#name={}#bytes={}", role.name(), if two_byte { 2 } else { 4 }, name, hex(bytes))
+}
+
+fn field<'a>(case: &'a str, key: &str) -> Option<&'a str> {
+    case.split('#').find_map(|kv| kv.strip_prefix(key).and_then(|r| r.strip_prefix('=')))
+}
+
+thread_local! { static RT: tokio::runtime::Runtime = runtime(); }
+
+/// thorough tier: (base, 2-octet AS, role) for which pairs of representative corruptions are replayed
+const PAIR_SETS: [(&str, bool, Role); 4] = [("mixed/asc", false, Role::Ebgp), ("mixed/asc", false, Role::Ibgp), ("mixed/desc", true, Role::RsClient), ("legacy/asc", true, Role::ConfedEbgp)];
+
+fn run_one(name: &str, bytes: &[u8], two_byte: bool, role: Role, exp: &Expect, owners: Option<&Owners>) -> Result<(Outcome, Vec<Verdict>), String> {
+    let o = RT.with(|rt| rt.block_on(drive(bytes, two_byte, role, exp)))?;
+    let want = match role {
+        Role::Ebgp => "Ebgp",
+        Role::RsClient => "RsClient",
+        Role::Ibgp => "Ibgp",
+        Role::ConfedEbgp => "ConfedEbgp",
+    };
+    if o.daemon_role != want {
+        return Err(format!("the neighbour configuration yields role {} in the daemon, the case wants {}", o.daemon_role, want));
+    }
+    let v = verdicts(name, bytes, role, exp, &o, owners);
+    Ok((o, v))
+}
+
+fn fnv(bytes: &[u8], two_byte: bool, role: Role) -> u64 {
+    let mut h: u64 = 0xcbf29ce484222325 ^ two_byte as u64 ^ ((role as u64) << 8);
+    for b in bytes {
+        h ^= *b as u64;
+        h = h.wrapping_mul(0x100000001b3);
+    }
+    h
+}
+
+fn shape_of(name: &str) -> &str {
+    name.split('/').next().unwrap_or("")
+}
+
+/// quick tier: a covering subset of the single-corruption corpus -- every valid
+/// base, every single corruption of the base mixed/asc with 4-octet AS (all roles),
+/// and greedily every case that is the first witness of
+/// (fault, role), (fault, base shape), (fault, AS width) or
+/// (reference class, base shape, role, AS width), where fault = "<attr>:<class>" as the
+/// reference classifies the final bytes (incl. missing / duplicate / structural kinds), or of
+/// (a prefix of the UPDATE encoded with non-zero trailing bits, reference class, role, AS width).
+fn covering_subset(all: Vec<pk::Case>) -> Vec<pk::Case> {
+    let mut seen: BTreeSet<String> = BTreeSet::new();
+    let mut out = Vec::new();
+    for c in all {
+        let shape = shape_of(&c.name).to_string();
+        let w = if c.two_byte_as { 2 } else { 4 };
+        let mut keys = vec![format!("class {} {} {} {}", c.expected.class(), shape, c.role.name(), w)];
+        for n in fault_names(&c.expected) {
+            keys.push(format!("fr {n} {}", c.role.name()));
+            keys.push(format!("fs {n} {shape}"));
+            keys.push(format!("fw {n} {w}"));
+        }
+        // NLRI encoded with non-zero trailing bits among the prefixes of the UPDATE
+        let tb = trailing_bit_prefixes(&c.bytes);
+        if c.expected.announced.iter().chain(c.expected.withdrawn.iter()).any(|p| tb.contains(p)) {
+            keys.push(format!("trailing-bits {} {} {}", c.expected.class(), c.role.name(), w));
+        }
+        let valid_base = c.name.ends_with(";none");
+        let mut fresh = false;
+        for k in keys {
+            fresh |= seen.insert(k);
+        }
+        if fresh || valid_base || c.name.starts_with("mixed/asc;as=4;") {
+            out.push(c);
+        }
+    }
+    out
+}
+
+pub(crate) fn run(replay: Option<&str>) -> Report {
     let mut rep = Report::new("C05", "hd-c05");
-    rep.machinery_error = Some("harness not built yet".into());
+    if let Some(case) = replay {
+        return run_replay(rep, case);
+    }
+    let thorough = rep.thorough();
+    let all = pk::corpus(false);
+    let n_all = all.len();
+    let cases = if thorough { all } else { covering_subset(all) };
+    let n = cases.len();
+    let distinct: std::sync::Mutex<BTreeSet<u64>> = std::sync::Mutex::new(BTreeSet::new());
+    let outcomes: std::sync::Mutex<BTreeMap<String, u64>> = std::sync::Mutex::new(BTreeMap::new());
+    let stop = std::sync::atomic::AtomicBool::new(false);
+    let trace = std::env::var("VERIF_C05E2E_TRACE").ok();
+    let samples: std::sync::Mutex<BTreeSet<String>> = std::sync::Mutex::new(BTreeSet::new());
+    let found: std::sync::Mutex<BTreeMap<String, (Violation, u64)>> = std::sync::Mutex::new(BTreeMap::new());
+    let owners: std::sync::Mutex<Owners> = std::sync::Mutex::new(BTreeSet::new());
+    let eval = |c: &pk::Case, i: u64, local: &mut Report, pair_owners: Option<&Owners>| {
+        if stop.load(Ordering::Relaxed) {
+            return;
+        }
+        match run_one(&c.name, &c.bytes, c.two_byte_as, c.role, &c.expected, pair_owners) {
+            Err(e) => {
+                stop.store(true, Ordering::Relaxed);
+                local.machinery_error = Some(format!("{e} [case {}]", case_string(&c.name, c.role, c.two_byte_as, &c.bytes)));
+            }
+            Ok((o, vs)) => {
+                local.evaluations += 1;
+                local.traces_validated += 1;
+                if c.expected.nontrivial() {
+                    distinct.lock().unwrap().insert(fnv(&c.bytes, c.two_byte_as, c.role));
+                }
+                let obs = to_obs(&o);
+                let key = format!("ref={} e2e={}", c.expected.class(), if o.up { obs.class() } else if o.panicked.is_some() { "panic" } else { "reset" });
+                if trace.as_deref() == Some(key.as_str()) {
+                    // reading aid: VERIF_C05E2E_TRACE='ref=hard e2e=nothing' lists the cases of one outcome class
+                    eprintln!("trace {key}: {} => {}", case_string(&c.name, c.role, c.two_byte_as, &c.bytes), show_outcome(&o));
+                }
+                *outcomes.lock().unwrap().entry(key).or_insert(0) += 1;
+                // non-vacuity: a valid base must be installed completely (new attributes) and its withdrawals applied
+                if c.name.ends_with(";none") {
+                    let ok = o.up
+                        && c.expected.announced.iter().all(|p| o.routes.iter().any(|r| r.pfx == *p && !r.marker))
+                        && c.expected.withdrawn.iter().all(|p| !o.routes.iter().any(|r| r.pfx == *p))
+                        && !c.expected.announced.is_empty();
+                    if !ok {
+                        stop.store(true, Ordering::Relaxed);
+                        local.machinery_error = Some(format!("self-check: the valid base {} (role {}) is not delivered completely end to end: {}", c.name, c.role.name(), show_outcome(&o)));
+                    }
+                }
+                // deterministic samples and witnesses whatever the thread interleaving
+                if i % 997 == 0 {
+                    samples.lock().unwrap().insert(format!("{} role {} -> ref {} / {}", c.name, c.role.name(), c.expected.class(), show_outcome(&o)));
+                }
+                for Verdict { sig, what, key } in vs {
+                    if pair_owners.is_none() {
+                        owners.lock().unwrap().insert(key);
+                    }
+                    let case = case_string(&c.name, c.role, c.two_byte_as, &c.bytes);
+                    let mut g = found.lock().unwrap();
+                    match g.get_mut(&sig) {
+                        Some((v, n)) => {
+                            *n += 1;
+                            if (case.len(), &case) < (v.case.len(), &v.case) {
+                                *v = Violation { sig, what, case };
+                            }
+                        }
+                        None => {
+                            g.insert(sig.clone(), (Violation { sig, what, case }, 1));
+                        }
+                    }
+                }
+            }
+        }
+    };
+    enumr::par_range(n as u64, &mut rep, |i, local| eval(&cases[i as usize], i, local, None));
+
+    // ---- thorough: pairs of corruptions, one representative per reference classification -------
+    let mut n_pairs = 0usize;
+    let mut n_pairs_skipped = 0u64;
+    if thorough && rep.machinery_error.is_none() {
+        let mut pair_cases: Vec<pk::Case> = Vec::new();
+        for (base, two_byte, role) in PAIR_SETS {
+            // one corruption id per distinct reference outcome (class + fault names) of this base / AS width / role
+            let prefix = format!("{base};as={};", if two_byte { 2 } else { 4 });
+            let mut seen: BTreeSet<String> = BTreeSet::new();
+            let mut reps: Vec<String> = Vec::new();
+            for c in cases.iter().filter(|c| c.role == role && c.name.starts_with(&prefix) && !c.name.ends_with(";none")) {
+                if seen.insert(format!("{} {:?}", c.expected.class(), fault_names(&c.expected))) {
+                    reps.push(c.name[prefix.len()..].to_string());
+                }
+            }
+            let mut ids: Vec<(String, String)> = Vec::new();
+            for a in 0..reps.len() {
+                for b in a + 1..reps.len() {
+                    ids.push((reps[a].clone(), reps[b].clone()));
+                }
+            }
+            n_pairs += ids.len();
+            // None: both on the same attribute, or the two do not compose
+            let built: Vec<pk::Case> = pk::corpus_pairs(base, two_byte, role, &ids).into_iter().flatten().collect();
+            n_pairs_skipped += (ids.len() - built.len()) as u64;
+            rep.notes.push(format!(
+                "c05-e2e pairs: base {base} AS width {} role {}: {} representative corruptions (one per distinct reference class + fault set), {} pairs, {} replayed",
+                if two_byte { 2 } else { 4 },
+                role.name(),
+                reps.len(),
+                ids.len(),
+                built.len()
+            ));
+            pair_cases.extend(built);
+        }
+        let single_owners: Owners = owners.lock().unwrap().clone();
+        enumr::par_range(pair_cases.len() as u64, &mut rep, |i, local| eval(&pair_cases[i as usize], i, local, Some(&single_owners)));
+    }
+    if rep.machinery_error.is_none() {
+        rep.machinery_error = take_machinery();
+    }
+    rep.distinct_nontrivial = distinct.lock().unwrap().len() as u64;
+    rep.violations = found.into_inner().unwrap();
+    rep.samples = samples.into_inner().unwrap().into_iter().take(12).collect();
+    for (k, v) in outcomes.into_inner().unwrap() {
+        rep.add(&format!("outcome {k}"), v);
+    }
+    rep.exhaustive = rep.machinery_error.is_none();
+    rep.rule = format!(
+        "end-to-end replay of the packet-level C05 corpus (valid UPDATE frames: shapes legacy reach+withdraw / MP_REACH+MP_UNREACH v6 / both, ascending and descending attribute order, 2- and 4-octet AS, every attribute kind, x every single entry of the corruption menu, x roles Ebgp/RsClient/Ibgp/ConfedEbgp = {n_all} cases): {}. Each case = own daemon instance, live passive session over loopback (real accept_connection + PeerSession::run), pre-install of every announced/withdrawn prefix with marker attributes, the case's bytes, KEEPALIVE barrier, Adj-RIB-In via TableManager::collect_paths. distinct non-trivial = distinct (frame bytes, AS width, role) in which the independent RFC 7606 reference receiver finds at least one fault",
+        if thorough { format!("all {n} replayed, plus all pairs of representative corruptions (one per distinct reference class + fault set) on 4 base/AS width/role combinations") } else { format!("covering subset of {n} (every valid base; every single corruption of base mixed/asc with 4-octet AS; first witness of every (fault,role), (fault,shape), (fault,AS width), (reference class,shape,role,AS width))") }
+    );
+    rep.notes.push(format!("c05-e2e: {n} of {n_all} single-corruption corpus cases replayed through a live session each; traces_validated counts every replayed case"));
+    if thorough {
+        rep.notes.push(format!("c05-e2e pairs: {n_pairs} pairs of representative corruptions, {n_pairs_skipped} of them on the same attribute / not composable (skipped), the rest replayed"));
+    }
+    rep.notes.push("assume: loopback TCP delivers in order; quiescence by a KEEPALIVE barrier on the session's receive counter and by completion of the session task, never by sleeping; time-outs are machinery errors".into());
+    rep.notes.push("assume: 'route installed' is read from the peer's Adj-RIB-In (pre-policy attributes, filtered paths included); the next hop is not visible there, so a faulty NEXT_HOP / MP next hop counts as believed when any route that needs it is installed".into());
+    rep.notes.push("assume: neighbour without graceful restart, no import policy, no prefix limit, no add-path; IbgpRrClient not replayed (same receive path as Ibgp)".into());
+    rep
+}
+
+/// case = "role=<Role>#as=<2|4>#name=<corpus name>#bytes=<hex>" (`bytes` is authoritative; without it the
+/// corpus case of that name -- "<base>;as=<w>;<id>" or "<base>;as=<w>;<id_a>,<id_b>" -- is regenerated;
+/// role=* replays all roles)
+fn run_replay(mut rep: Report, case: &str) -> Report {
+    let two_byte = field(case, "as") == Some("2");
+    let roles: Vec<Role> = match field(case, "role").and_then(Role::parse) {
+        Some(r) => vec![r],
+        None => pk::ROLES.to_vec(),
+    };
+    let name = field(case, "name").unwrap_or("?;as=?;?");
+    let bytes = match field(case, "bytes") {
+        Some(h) => unhex(h),
+        None => {
+            // no bytes: regenerate a corpus case (single or pair) from its name
+            let mut parts = name.splitn(3, ';');
+            let (base, ids) = (parts.next().unwrap_or(""), parts.nth(1).unwrap_or(""));
+            let regenerated = match ids.split_once(',') {
+                Some((a, b)) => pk::corpus_pair(base, two_byte, roles[0], a, b).map(|c| c.bytes),
+                None => pk::corpus(false).into_iter().find(|c| c.name == name).map(|c| c.bytes),
+            };
+            match regenerated {
+                Some(b) => b,
+                None => {
+                    rep.machinery_error = Some("replay: the case has no bytes= field and its name is not a corpus case".into());
+                    return rep;
+                }
+            }
+        }
+    };
+    eprintln!("c05-e2e replay: {} bytes, AS width {}, case {}", bytes.len(), if two_byte { 2 } else { 4 }, name);
+    // a pair: its findings are attributed through the findings of the two single corruptions
+    let ids = name.rsplit(';').next().unwrap_or("");
+    let pair_prefix = if ids.contains(',') { Some(&name[..name.len() - ids.len()]) } else { None };
+    let singles: Vec<pk::Case> = match pair_prefix {
+        Some(pre) => {
+            let wanted: Vec<String> = ids.split(',').map(|id| format!("{pre}{id}")).collect();
+            pk::corpus(false).into_iter().filter(|c| wanted.contains(&c.name)).collect()
+        }
+        None => Vec::new(),
+    };
+    for role in roles {
+        let mut owners: Owners = BTreeSet::new();
+        for c in singles.iter().filter(|c| c.role == role) {
+            match run_one(&c.name, &c.bytes, c.two_byte_as, c.role, &c.expected, None) {
+                Ok((_, vs)) => {
+                    for v in vs {
+                        eprintln!("  single corruption {} alone: {}", c.name, v.sig);
+                        owners.insert(v.key);
+                    }
+                }
+                Err(e) => {
+                    rep.machinery_error = Some(e);
+                    return rep;
+                }
+            }
+        }
+        let owners = if pair_prefix.is_some() { Some(&owners) } else { None };
+        let exp = pk::reference(&bytes, two_byte, role);
+        eprintln!("c05-e2e replay: role {}", role.name());
+        eprintln!("  reference: class={} reset_ok={} relaxed={} must_withdraw={} faults={:?}", exp.class(), exp.reset_ok, exp.relaxed, exp.must_withdraw, fault_names(&exp));
+        eprintln!("    announced: {}", exp.announced.iter().map(|p| p.show()).collect::<Vec<_>>().join(" "));
+        eprintln!("    withdrawn: {}", exp.withdrawn.iter().map(|p| p.show()).collect::<Vec<_>>().join(" "));
+        match run_one(name, &bytes, two_byte, role, &exp, owners) {
+            Err(e) => {
+                rep.machinery_error = Some(e);
+                return rep;
+            }
+            Ok((o, vs)) => {
+                rep.evaluations += 1;
+                rep.traces_validated += 1;
+                eprintln!("  observed: {}", show_outcome(&o));
+                eprintln!("  as packet-level observation: {}", to_obs(&o).show());
+                if vs.is_empty() {
+                    eprintln!("  no violation");
+                }
+                for Verdict { sig, what, .. } in vs {
+                    eprintln!("  VIOLATION {sig}: {what}");
+                    rep.violation(Violation { sig, what, case: case_string(name, role, two_byte, &bytes) });
+                }
+            }
+        }
+    }
+    rep.rule = "replay of one case".into();
+    rep.distinct_nontrivial = 1;
+    rep.machinery_error = rep.machinery_error.or(take_machinery());
     rep
 }
